@@ -243,16 +243,20 @@ pub fn main(o: &Opts) {
     let per_cat = o.get_usize("per_cat", 8).max(1);
     let prop = o.get("prop").unwrap_or("C28").to_string();
     let max_rows = o.get_usize("max_rows", 3000);
+    let nojoin = o.get_usize("nojoin", 0) == 1;
     let mut r = Rng::new(o.seed ^ 0xC28);
     let mut cat = gen_catalog(&mut r, &copts);
     let mut n = 0usize; let mut attempts = 0usize;
-    while n < o.cases && attempts < o.cases * 4 + 16 {
+    while n < o.cases && attempts < o.cases * 8 + 16 {
         if attempts % per_cat == 0 { cat = gen_catalog(&mut r, &copts); }
         attempts += 1;
         let mut qr = r.fork();
         let mut g = Gen::new(&mut qr, &cat, &gopts).generate(n);
         // (not over the big multi-partition table: the engine re-runs an uncorrelated subquery for every batch it filters)
         if n % 3 == 2 && cat.total_rows() <= 400 && add_cte_subquery(&mut r, &mut g.q, n) { g.tags.push("f:cte_in_subquery".into()); }
+        // `--opt nojoin=1` (the multi-partition stream): a join over the 1000+-row table on a low-cardinality key produces millions
+        // of rows before `max_rows` can reject the case; sqlgen cannot switch joins off, so such statements are dropped unexecuted
+        if nojoin && g.q.sql().contains(" JOIN ") { continue; }
         let one = [cfgs[n % cfgs.len()].clone()];
         let mut case = make_case(&prop, &cat, &g.q, &g.tags, g.engine_defined, &one, false);
         let mut defs = Defs::new();
